@@ -1154,7 +1154,8 @@ def check_c08(tier, seed):
     evals = collect(results, viols, fired, effective, probes)
     miri = None
     if tier == "thorough":
-        miri = run_miri("miri", [["c08", "--seed", seed + 7919 * i, "--runs", 24, "--workers", 1] for i in range(NCPU)])
+        # (seeded chains only: the 1.2 M single-op grid programs would take the interpreter days)
+        miri = run_miri("miri", [["c08", "--seed", seed + 7919 * i, "--runs", 24, "--workers", 1, "--no-grid"] for i in range(NCPU)])
         results.append(("miri", miri))
         evals += miri["evaluations"]
         for v in miri["violations"]:
@@ -1209,7 +1210,7 @@ def check_c17(tier, seed):
     cfg_table, cfg_extra = cfg_coverage(cfgs)
     cfgs = cfgs + cfg_extra
     build_all(cfgs)
-    hist = {"quick": 1500, "thorough": 40000}[tier]
+    hist = {"quick": 1500, "thorough": 20000}[tier]
     det = selftest_determinism("sse2-rel", seed, [["c17", "--histories", 60, "--no-grid"]], seeds=2 if tier == "quick" else 16)
     results, results_ff = [], []
     for c in cfgs:
@@ -1367,17 +1368,23 @@ def check_c18(tier, seed):
                 monitors["%s-%s" % (mc, label)] = {"ub_reports": 1, "what": e.what, "case": e.case}
                 viols.append(crash_violation(e, seed, "Heap"))
             continue
-        mem_groups = SIMD_GROUPS if tier == "quick" else [[t] for g in TYPE_GROUPS for t in g]
+        # (an interpreter process costs ~50 s before its first case: types are grouped; the release-profile interpreter runs
+        # the every-op pass and the conversions only)
+        mem_groups = SIMD_GROUPS if tier == "quick" else TYPE_GROUPS
+        if mc == "miri-rel":
+            mem_groups = []
         for g in mem_groups:
             jobs.append(("memory", ["c18m", "--seed", seed, "--rounds", 1, "--mem", "heap", "--types", ",".join(g)] + (["--subset"] if tier == "quick" else [])))
         # each interpreter process pays ~20 s of start-up: one shard per core; the quick tier makes one call per op (which of
         # the four argument sets rotates with the op index and the seed), the thorough tier all four
-        shards = NCPU if tier == "quick" else 2 * NCPU
+        shards = NCPU
         for i in range(shards):
             jobs.append(("every-op", ["c18p", "--once", "--seed", seed, "--shard", i, "--of", shards] + (["--calls", 1, "--related", 4] if tier == "quick" else ["--related", 64])))
         jobs.append(("conv", ["conv", "--seed", seed, "--rounds", 3 if tier == "quick" else 40]))
         conv_types = ["Vec3A", "Vec4", "Quat", "BVec3A", "BVec4A"] + (["Vec3", "DVec4", "DQuat", "IVec3", "U8Vec4"] if tier == "thorough" else [])
-        hist_groups = [conv_types[:3], conv_types[3:]] if tier == "quick" else [[t] for t in conv_types]
+        hist_groups = [conv_types[:3], conv_types[3:]] if tier == "quick" else [conv_types[:3], conv_types[3:5], conv_types[5:8], conv_types[8:]]
+        if mc == "miri-rel":
+            hist_groups = []
         for g in hist_groups:
             jobs.append(("histories", ["c17", "--seed", seed, "--histories", 2 if tier == "quick" else 12, "--workers", 1, "--no-fmt", "--no-grid", "--types", ",".join(g)]))
         res, crashes = run_miri_pool(mc, jobs)
